@@ -323,6 +323,9 @@ async def _run(sc: dict, holder: dict | None = None) -> dict:
                 elif why == "transport":
                     from ramses_tx import exceptions as _exc
                     proto.connection_lost(_exc.TransportError("the port was closed"))
+                elif why == "wrapped":   # as MqttTransport._write_frame does: _close(exc.TransportError(err)) - the argument
+                    from ramses_tx import exceptions as _exc    # of the library's error is an exception object, not a text
+                    proto.connection_lost(_exc.TransportError(OSError(107, "Transport endpoint is not connected")))
                 else:
                     proto.connection_lost(None)
                 # the cause is handed to the protocol's owner through wait_for_connection_lost(); the harness is the owner
